@@ -179,6 +179,23 @@ def strIn (x : Text) : Text → Bool
   | [] => x.isEmpty
   | c :: s => x.isPrefixOf (c :: s) || strIn x s
 
+/-- `struct.unpack("<I", b)[0]`: the little-endian value of exactly four bytes, struct.error for any other length -/
+def unpackU32LE (b : Bytes) : PyM Int :=
+  match b with
+  | [b0, b1, b2, b3] => .ok ((b0.toNat + 256 * b1.toNat + 65536 * b2.toNat + 16777216 * b3.toNat : Nat) : Int)
+  | _ => .error .StructError
+
+/-- `struct.pack("<I", n)`: four little-endian bytes; struct.error outside `0 .. 2^32 - 1` -/
+def packU32LE (n : Int) : PyM Bytes :=
+  if n < 0 ∨ n ≥ 4294967296 then .error .StructError
+  else .ok [UInt8.ofNat (n.toNat % 256), UInt8.ofNat (n.toNat / 256 % 256), UInt8.ofNat (n.toNat / 65536 % 256),
+            UInt8.ofNat (n.toNat / 16777216 % 256)]
+
+/-- reading an attribute of `self` that `__init__` does not set: AttributeError while it is unset -/
+def attrGet {α} : Option α → PyM α
+  | some a => .ok a
+  | none => .error .AttributeError
+
 /-- `s.startswith(p)` / `s.endswith(p)` for two `str` -/
 def startswith (s p : Text) : Bool := p.isPrefixOf s
 def endswith (s p : Text) : Bool := p.isSuffixOf s
